@@ -75,8 +75,8 @@ const sysTimeout = 30 * time.Second
 // qHangSeen: a query of this run did not come to an end; the scenarios that exist to provoke that are not repeated
 var qHangSeen bool
 
-// qSaturateSeq rotates how a saturated query is ended
-var qSaturateSeq int
+// qSaturateSeq rotates how a saturated query is ended, qInReadSeq how a query with a read in flight is
+var qSaturateSeq, qInReadSeq int
 
 func (c *Ctx) genQPlan(i, nq int, evGuess int) sysQPlan {
 	p := sysQPlan{sq: c.genSysQuery()}
@@ -307,7 +307,8 @@ func runSysScenario(c *Ctx, fixed bool, kind string) (term string, desc map[stri
 			p.mode, p.ctxKind, p.twoClose = "cancelLate", "gated", false
 		case "inread":
 			p.mode = "inRead"
-			p.after = []string{"close", "cancel", "cancelclose"}[c.intn(3)]
+			p.after = []string{"close", "cancel", "cancelclose"}[qInReadSeq%3]
+			qInReadSeq++
 		case "handoff":
 			p.mode, p.ctxKind = "handoff", "std"
 			p.after = []string{"cancel", "cancel", "close"}[c.intn(3)]
